@@ -342,6 +342,7 @@ pub fn run(args: &Args) -> i32 {
         let b = if scn.concurrent.len() >= 3 || (!thorough && scn.bufsize < 64) { bound - 1 } else { bound };
         let mut traces: BTreeSet<String> = BTreeSet::new();
         let mut found: Vec<(String, String, Vec<usize>, Vec<String>)> = vec![];
+        crate::evidence::watchdog::set_context(json!({"engine":"schedmc-c01","scenario":scn.name}));
         let stats = explore(b, cap, |prefix| run_one(scn, prefix), |prefix, _d, ex| {
             traces.insert(ex.outcome.trace.clone());
             for (sub, msg) in &ex.outcome.viols {
